@@ -1528,6 +1528,17 @@ pub fn exec_scenario(
         let w2 = w.clone();
         let per_step_cell = std::rc::Rc::new(RefCell::new(per_step));
         let ps0 = per_step_cell.clone();
+        {
+            // the same observer also runs right before every granted poll
+            let (wp, psp) = (w.clone(), per_step_cell.clone());
+            crate::gate::PRE_POLL.with(|h| {
+                *h.borrow_mut() = Some(Box::new(move |s, t| {
+                    if let Ok(mut f) = psp.try_borrow_mut() {
+                        f(&wp, s, t)
+                    }
+                }))
+            });
+        }
         let (end_main, handles) = run_clients(&mut env, &w, &sc2.clients, 20_000, move |s, t| (ps0.borrow_mut())(&w2, s, t)).await;
         let mut client_panic = None;
         for h in handles {
@@ -1547,6 +1558,7 @@ pub fn exec_scenario(
         let probe_out = probe(&w);
         let cut = trace_len();
         log(Ev::Note("final-sweep".into()));
+        crate::gate::PRE_POLL.with(|h| *h.borrow_mut() = None);
         let end_sweep = quiesce(&mut env, &w, opts.sweep_kill, 20_000).await;
         Exec { trace: take_trace(), cut, end_main, end_sweep, client_panic, probe: probe_out }
     })
